@@ -565,7 +565,9 @@ func wrapRun(w *World) {
 	var srvTask *Task
 	sv.enter = func() func() {
 		srvTask = w.Adopt("srv", false)
-		return srvTask.Done
+		// after the handler has returned the goroutine is back in pkg/wrap (sending the unary reply, closing the stream):
+		// keep it schedulable at the hooks there, but do not wait for it
+		return srvTask.Detach
 	}
 	sv.yield = func(op string) { srvTask.Yield(op) }
 	conn := wrap.ServerToClient(testproto.TestApi_ServiceDesc, sv)
